@@ -136,7 +136,7 @@ func cmdEngineTraces(args []string) {
 			if *mode == "fetch" || (*mode == "mixed" && r.Intn(3) == 0) {
 				cc.Mode = "fetch"
 			}
-			if k > 0 && cc.World.HasN && r.Intn(4) == 0 {
+			if k > 0 && cc.World.HasN && !assignsTop(prog) && r.Intn(4) == 0 {
 				cc.World.HasN = false // an optional fact that this call's data context does not hold: rules reading it cannot be evaluated
 			}
 			if k == 0 && r.Float64() < *shadowP {
@@ -234,6 +234,19 @@ func cmdEngineTraces(args []string) {
 	}
 	sb, _ := json.Marshal(stats)
 	fmt.Println("STATS", string(sb))
+}
+
+// assignsTop: some action assigns the top-level variable N (an assignment CREATES a missing context variable, a read of it fails:
+// the optional-fact variation is kept to programs that only read it).
+func assignsTop(p *Program) bool {
+	for _, ru := range p.Rules {
+		for _, a := range ru.Then {
+			if a.Kind == "asg" && a.Path != nil && a.Path.GRL() == "N" {
+				return true
+			}
+		}
+	}
+	return false
 }
 
 // cmdEngineReplay re-runs the cases of a case file (used to confirm a flagged trace in a fresh process).
